@@ -119,6 +119,15 @@ def run(ctx, tier):
     ctx.rule('C19.R3', 'C19: parameterItems yields (upper-cased letter, float | None) in source order', floor=4)
     rules_c19.language_rules(ctx)
     rules_c19.items_rules(ctx, rules_c19.parser_interp(ctx.model, unroll=2))
+    # arcs are judged by their sampled points: the sampling itself (end point, circle, equal steps in the commanded
+    # direction, density) is a premise (C16.R1-R5, R7; the radius-form centre law R6 has its own known finding under C16)
+    from . import rules_c16
+    for rid, floor in (('C16.R1', 4), ('C16.R3', 4), ('C16.R4', 4), ('C16.R4b', 4), ('C16.R4c', 2), ('C16.R5', 2), ('C16.R7', 4)):
+        ctx.rule(rid, 'C16: ' + {'C16.R1': 'last sampled pair is the commanded end point', 'C16.R3': 'samples lie on the circle',
+                                 'C16.R4': 'equal angular steps from the start angle', 'C16.R4b': 'sweep direction and wrap-around',
+                                 'C16.R4c': 'sweep angle from cross / dot of the radius vectors', 'C16.R5': 'sample density',
+                                 'C16.R7': 'planArc does not raise'}[rid], floor=floor)
+    rules_c16.plan_rules(ctx, make_interp(ctx.model, unroll=3, modular=False))
     ctx.assume('"destination inside a region" is the abstract outcome of Region.containsPoint (geometry: C17; '
                'position conversion: C08)')
     ctx.assume('both values of g90InfluencesExtruder are covered: the setting is a free boolean of the initial state')
